@@ -23,8 +23,8 @@ ASSUMPTIONS = [
     "the reference (plateau compression + comparison of neighbouring plateaus) and the statement's validity predicate are "
     "independent encodings of the statement; the library must satisfy both, and the predicate must accept the reference's own "
     "answer on every case - if it does not, the oracle is broken and the run is a harness error (exit 2), not a violation",
-    "cycle counter: exact at the reported peaks up to 8*eps*max(1,value) (np.interp arithmetic), linear between them with the "
-    "same bound; after the last reported peak (final constant run) only 'non-decreasing' is asserted (the statement is silent there)",
+    "cycle counter: at the reported peaks to (8+4n)*eps*max(1,value) (bound of an n-term running sum: the statement fixes the values, not the arithmetic); between them and after the last one only 'non-decreasing' is "
+    "asserted (the statement does not say how the counter rises between two peaks)",
 ]
 EPS = np.finfo(float).eps
 ALPHABET = 5
@@ -41,6 +41,20 @@ def series(case):
     """Case -> (float64 array actually analysed, argument handed to the library)."""
     if "v" in case:  # enumerated / hand-written
         a = np.array(case["v"], dtype=float)
+        return a, a.copy()
+    if "smooth" in case:
+        kind, n, cyc, ph = case["smooth"]
+        t = np.arange(int(n), dtype=float) / float(n)
+        if kind == "sine":
+            a = np.sin(2 * np.pi * cyc * t + ph)
+        elif kind == "decay":
+            a = np.exp(-3.0 * t) * np.cos(2 * np.pi * cyc * t + ph)
+        else:
+            a = np.cumsum(np.sin(2 * np.pi * cyc * t + ph) ** 2)
+        if case.get("lead"):
+            a = np.concatenate([np.full(case["lead"], a[0]), a])
+        if case.get("tail"):
+            a = np.concatenate([a, np.full(case["tail"], a[-1])])
         return a, a.copy()
     spec = case["rec"]
     a = gen.build(spec)
@@ -263,6 +277,17 @@ def random(case, ctx):
 def _ncyc_cases(draw):
     case = draw(_cases(max_n=3000))
     case["start"] = draw(st.sampled_from(["origin", "peak", "default"]))
+    if draw(st.integers(0, 3)) == 0:
+        # smooth, finely sampled series (far fewer than one turning point per 16 samples): slow sines, a decaying cosine, a
+        # monotone cumulative curve - a counter that takes another route for such records must still honour `start`
+        n = draw(st.integers(40, 3000))
+        kind = draw(st.sampled_from(["sine", "sine", "decay", "cumulative"]))
+        cyc = draw(st.floats(0.3, max(0.5, n / 48.0), allow_nan=False))
+        case = {"smooth": [kind, n, cyc, draw(st.floats(0, 6.28, allow_nan=False))], "start": case["start"]}
+        if draw(st.integers(0, 2)) == 0:
+            case["lead"] = draw(st.integers(1, 40))
+        if draw(st.integers(0, 2)) == 0:
+            case["tail"] = draw(st.integers(1, 40))
     return case
 
 
@@ -270,8 +295,8 @@ def _ncyc_cases(draw):
         rule="same generator (n <= 3000), start in {origin, peak, default(=origin)}, opt='all'; "
              "non-trivial = at least one interior extremum",
         oracle="reference model: length, non-decreasing, value at the j-th reported (reference) peak = 0.5*j - 0.25*[origin]*[j>0], "
-               "linear between; tolerance 8*eps*max(1, value)",
-        require={"lead-plateau": 0.25, "start=peak": 0.1, "start=origin": 0.1},
+               "non-decreasing (hence bracketed) between; tolerance (8+4n)*eps*max(1, value)",
+        require={"lead-plateau": 0.2, "start=peak": 0.1, "start=origin": 0.1, "smooth&start=peak": 0.04},
         min_nontrivial=0.3)
 def n_cyc(case, ctx):
     a, arg = series(case)
@@ -297,16 +322,24 @@ def n_cyc(case, ctx):
         ctx.fail("cycle counter decreases at sample %d: %r -> %r" % (j + 1, float(out[j]), float(out[j + 1])))
     expect, at = ref.n_cyc_reference(n, r_all, start)
     expect = np.array(expect, dtype=float)
-    tol = 8 * EPS * np.maximum(1.0, np.abs(expect))
+    # tolerance: the statement fixes the VALUES at the peaks (multiples of 0.25), not the arithmetic that produces them: an
+    # implementation that accumulates the ramp sample by sample (n additions) is as correct as one that interpolates, so the
+    # bound is that of an n-term running sum, (8 + 4n) eps max(1, value) (< 3e-12 for n = 3000; the smallest meaningful
+    # error is a fraction of the 0.25 step)
+    tol = (8 + 4 * n) * EPS * np.maximum(1.0, np.abs(expect))
     pk = np.array(r_all)
     ctx.close(out[pk], np.array(at), tol[pk], "cycle counter at the reported peaks (start=%s)" % start)
-    last = r_all[-1]
-    ctx.close(out[:last + 1], expect[:last + 1], tol[:last + 1], "cycle counter between reported peaks (start=%s)" % start)
+    # between two reported peaks the statement only promises "non-decreasing" (asserted above), which together with the exact
+    # values at the peaks brackets every sample; HOW the counter rises in between (np.interp's ramp or any other monotone
+    # rise) is not stated and not asserted.  (An earlier version demanded the linear ramp to 8 eps and flagged a correct
+    # cumulative-sum ramp that differed from it by 2e-15: a harness false alarm, removed.)
+    smooth = n > 16 * (len(r_all) + 1)
+    ctx.cls("smooth" if smooth else None, "smooth&start=peak" if smooth and start == "peak" else None)
     # the increments the statement names
     if len(r_all) >= 2:
         first = out[r_all[1]] - out[r_all[0]]
         want = 0.25 if start == "origin" else 0.5
-        ctx.check(abs(first - want) <= 16 * EPS, "counter rises by %r up to the first peak, expected %r" % (float(first), want))
+        ctx.check(abs(first - want) <= (16 + 8 * n) * EPS, "counter rises by %r up to the first peak, expected %r" % (float(first), want))
         steps = out[pk[2:]] - out[pk[1:-1]]
-        ctx.check(bool(np.all(np.abs(steps - 0.5) <= 16 * EPS * np.maximum(1.0, out[pk[2:]]))),
+        ctx.check(bool(np.all(np.abs(steps - 0.5) <= (16 + 8 * n) * EPS * np.maximum(1.0, out[pk[2:]]))),
                   "counter does not rise by 0.5 between consecutive reported peaks")
